@@ -661,6 +661,109 @@ fn truncate(s: &str) -> String {
     }
 }
 
+/// The bincode codec with non-default options (fixed-width integers, as `bincode::serialize` and the
+/// compression example use): requests, cancellations, responses and every error kind round-trip
+/// through it as well (seeded change C15k read the error kind as a u64 where a u32 is written -
+/// invisible under bincode's default variable-width integers).
+fn check_bincode_fixint(st: &mut CStats) {
+    use bincode::Options;
+    type O = bincode::config::WithOtherIntEncoding<bincode::DefaultOptions, bincode::config::FixintEncoding>;
+    fn round<T: Serialize + DeserializeOwned + Debug + Unpin>(items: Vec<T>) -> Result<Vec<String>, String> {
+        let want_n = items.len();
+        let io = WriteIo::new(3, true);
+        let out = io.out.clone();
+        let framed = Framed::new(io, LengthDelimitedCodec::new());
+        let opts = || bincode::DefaultOptions::new().with_fixint_encoding();
+        {
+            let mut t = tarpc::serde_transport::new::<_, T, T, _>(framed, Bincode::<T, T, O>::from(opts()));
+            for it in items {
+                let fut = t.send(it);
+                futures::pin_mut!(fut);
+                match drive(fut, 1_000_000) {
+                    Some(Ok(())) => {}
+                    Some(Err(e)) => return Err(format!("send error: {e}")),
+                    None => return Err("send did not complete".into()),
+                }
+            }
+        }
+        let bytes = out.borrow().clone();
+        let io = ReadIo::new(bytes, &[5, 11], true);
+        let framed = Framed::new(io, LengthDelimitedCodec::new());
+        let mut t = tarpc::serde_transport::new::<_, T, T, _>(framed, Bincode::<T, T, O>::from(opts()));
+        let mut got = vec![];
+        loop {
+            let fut = t.next();
+            futures::pin_mut!(fut);
+            match drive(fut, 100_000) {
+                Some(Some(Ok(it))) => got.push(format!("{it:?}")),
+                Some(Some(Err(e))) => return Err(format!("after {} of {want_n} messages the reader reported {e}", got.len())),
+                Some(None) => return Ok(got),
+                None => return Err("the reader is stuck".into()),
+            }
+        }
+    }
+    let mut ctx = tarpc::context::current();
+    ctx.trace_context.trace_id = trace::TraceId::from(0x0102030405060708090a0b0c0d0e0f10u128);
+    let reqs = || {
+        vec![
+            ClientMessage::Request(tarpc::Request { context: ctx, id: 7, message: "m".to_string() }),
+            ClientMessage::Cancel { trace_context: ctx.trace_context, request_id: 7 },
+            ClientMessage::Request(tarpc::Request { context: ctx, id: u64::MAX, message: String::new() }),
+        ]
+    };
+    st.encodes += 1;
+    st.decodes += 1;
+    // (deadlines are re-based on arrival: compare everything but the Instant)
+    let strip = |s: &str| -> String {
+        match (s.find("deadline: "), s.find("trace_context")) {
+            (Some(a), Some(b)) if a < b => format!("{}{}", &s[..a], &s[b..]),
+            _ => s.to_string(),
+        }
+    };
+    let want: Vec<String> = reqs().iter().map(|m| strip(&format!("{m:?}"))).collect();
+    match round(reqs()) {
+        Ok(got) => {
+            let got: Vec<String> = got.iter().map(|g| strip(g)).collect();
+            if got != want {
+                fail(st, "C15-bincode-fixint", format!("client messages through bincode with fixed-width integers: read {got:?}, written {want:?}"));
+            }
+        }
+        Err(e) => fail(st, "C15-bincode-fixint", format!("client messages through bincode with fixed-width integers: {e}")),
+    }
+    for k in KINDS {
+        let mk = || {
+            vec![
+                Response::<String> { request_id: 1, message: Ok("body".to_string()) },
+                Response::<String> { request_id: 2, message: Err(ServerError::new(*k, "detail".to_string())) },
+                Response::<String> { request_id: 3, message: Err(ServerError::new(*k, String::new())) },
+            ]
+        };
+        st.encodes += 1;
+        st.decodes += 1;
+        st.distinct.insert(hash_of(&("fixint", format!("{k:?}"))));
+        let portable = PORTABLE.contains(k);
+        match round(mk()) {
+            Ok(got) => {
+                let want: Vec<String> = mk()
+                    .into_iter()
+                    .map(|mut r| {
+                        if let Err(e) = &mut r.message {
+                            if !portable {
+                                e.kind = io::ErrorKind::Other;
+                            }
+                        }
+                        format!("{r:?}")
+                    })
+                    .collect();
+                if got != want {
+                    fail(st, "C15-bincode-fixint", format!("responses with an error of kind {k:?} through bincode with fixed-width integers: read {got:?}, expected {want:?}"));
+                }
+            }
+            Err(e) => fail(st, "C15-bincode-fixint", format!("responses with an error of kind {k:?} through bincode with fixed-width integers: {e}")),
+        }
+    }
+}
+
 fn check_kinds(st: &mut CStats) {
     for codec in [Codec::Json, Codec::Bincode] {
         for k in KINDS {
@@ -741,7 +844,56 @@ fn check_defaults(st: &mut CStats) {
             "request without deadline",
             r#"{"Request":{"context":{"trace_context":{"trace_id":[1,0,0,0,0,0,0,0,0,0,0,0,0,0,0,0],"span_id":2,"sampling_decision":"Sampled"}},"id":9,"message":"m"}}"#.to_string(),
         ),
+        // the documented member names, written by a peer that is not this tree (another language, an
+        // older release): a deadline that is there is the deadline (seeded change C07k renamed the
+        // member, so that such a frame was accepted and silently given the 10 s default)
+        (
+            "request with a 60 s deadline",
+            r#"{"Request":{"context":{"deadline":{"secs":60,"nanos":0},"trace_context":{"trace_id":[1,0,0,0,0,0,0,0,0,0,0,0,0,0,0,0],"span_id":2,"sampling_decision":"Sampled"}},"id":9,"message":"m"}}"#.to_string(),
+        ),
     ];
+    // ... and what this tree writes uses those names
+    {
+        let mut ctx = tarpc::context::current();
+        ctx.deadline = now + Duration::from_secs(60);
+        let m = ClientMessage::Request(tarpc::Request { context: ctx, id: 9, message: "m".to_string() });
+        st.encodes += 1;
+        match encode_owned(Codec::Json, vec![m]) {
+            Ok(bytes) if bytes.len() > 4 => match serde_json::from_slice::<serde_json::Value>(&bytes[4..]) {
+                Ok(v) => {
+                    let c = &v["Request"]["context"];
+                    let ok = c["deadline"]["secs"].is_u64()
+                        && c["deadline"]["nanos"].is_u64()
+                        && c["trace_context"]["trace_id"].is_array()
+                        && c["trace_context"]["span_id"].is_u64()
+                        && c["trace_context"]["sampling_decision"].is_string()
+                        && v["Request"]["id"] == 9
+                        && v["Request"]["message"] == "m";
+                    if !ok {
+                        fail(st, "C15-json-member-names", format!("a request written through the JSON codec does not have the documented members: {v}"));
+                    }
+                }
+                Err(e) => fail(st, "C15-json-member-names", format!("a request written through the JSON codec is not JSON: {e}")),
+            },
+            other => fail(st, "C15-encode", format!("request through JSON: {:?}", other.map(|b| b.len()))),
+        }
+        let m = ClientMessage::<String>::Cancel { trace_context: trace::Context::default(), request_id: 5 };
+        if let Ok(bytes) = encode_owned(Codec::Json, vec![m]) {
+            if let Ok(v) = serde_json::from_slice::<serde_json::Value>(&bytes[4.min(bytes.len())..]) {
+                if v["Cancel"]["request_id"] != 5 || !v["Cancel"]["trace_context"].is_object() {
+                    fail(st, "C15-json-member-names", format!("a cancellation written through the JSON codec does not have the documented members: {v}"));
+                }
+            }
+        }
+        let m = Response { request_id: 7, message: Err::<String, _>(tarpc::ServerError::new(io::ErrorKind::NotFound, "d".to_string())) };
+        if let Ok(bytes) = encode_owned(Codec::Json, vec![m]) {
+            if let Ok(v) = serde_json::from_slice::<serde_json::Value>(&bytes[4.min(bytes.len())..]) {
+                if v["request_id"] != 7 || !v["message"]["Err"]["kind"].is_u64() || v["message"]["Err"]["detail"] != "d" {
+                    fail(st, "C15-json-member-names", format!("an error response written through the JSON codec does not have the documented members: {v}"));
+                }
+            }
+        }
+    }
     for (what, js) in frames {
         let mut bytes = (js.len() as u32).to_be_bytes().to_vec();
         bytes.extend_from_slice(js.as_bytes());
@@ -760,8 +912,9 @@ fn check_defaults(st: &mut CStats) {
             }
             Some(Some(Ok(ClientMessage::Request(r)))) => {
                 let d = r.context.deadline.checked_duration_since(now);
-                if r.id != 9 || r.message != "m" || d != Some(Duration::from_secs(10)) {
-                    fail(st, "C15-default-deadline", format!("{what}: decoded to id {} deadline now+{d:?} (expected now+10s)", r.id));
+                let want = if what.contains("60 s") { 60 } else { 10 };
+                if r.id != 9 || r.message != "m" || d != Some(Duration::from_secs(want)) {
+                    fail(st, "C15-default-deadline", format!("{what}: decoded to id {} deadline now+{d:?} (expected now+{want}s)", r.id));
                 }
             }
             other => fail(st, "C15-default-rejected", format!("{what}: {:?}", other.map(|o| o.map(|r| r.map(|_| ()).map_err(|e| e.to_string()))))),
@@ -1563,6 +1716,7 @@ pub fn run_c15(tier: Tier) -> i32 {
                                 check_seq(&format!("responses {ix:?}"), *codec, &items, *full, &mut st);
                             }
                             Job::Kinds => {
+                                check_bincode_fixint(&mut st);
                                 check_kinds(&mut st);
                                 check_raw_kinds(&mut st);
                             }
